@@ -3,12 +3,16 @@
 #include "momo/details/HashBucketOpen2N2.h"
 #include "momo/details/HashBucketOpenN1.h"
 #include "momo/details/HashBucketOpen8.h"
+#define MOMO_INCLUDE_OLD_HASH_BUCKETS
+#include "momo/details/HashBucketOne.h"
 namespace momo { namespace internal {
 typedef HashSetItemTraits<uint64_t, MemManagerDefault> C01IT;
 typedef BucketOpen2N2<C01IT, 3, true> C01O2;
 typedef BucketOpenN1<C01IT, 3, true> C01N1;
 template class BucketOpen2N2<C01IT, 3, true>;
 template class BucketOpenN1<C01IT, 3, true>;
+typedef BucketOne<C01IT, 1> C01One;
+template class BucketOne<C01IT, 1>;
 struct C01Creator { void operator()(uint64_t*) const {} };
 struct C01Replacer { void operator()(uint64_t&, uint64_t&) const {} };
 // one use of every member template so that clang instantiates the bodies
@@ -17,5 +21,10 @@ inline void c13_use(C01O2& a, C01O2::Params& pa, C01N1& b, C01N1::Params& pb)
 	C01Creator cr; C01Replacer rp;
 	auto ia = a.AddCrt(pa, cr, 0, 0, 0); a.Remove(pa, ia, rp);
 	auto ib = b.AddCrt(pb, cr, 0, 0, 0); b.Remove(pb, ib, rp);
+}
+inline void c01_use_one(C01One& o, C01One::Params& po)
+{
+	C01Creator cr; C01Replacer rp;
+	auto io = o.AddCrt(po, cr, 0, 0, 0); o.Remove(po, io, rp);
 }
 }}
